@@ -600,13 +600,14 @@ var lenientQueryOK = map[string]string{
 // c10query: strict query parsing.
 func c10query(c *an.Ctx) {
 	nparse := 0
-	for _, fn := range c.P.PkgFuncs("nsqd") {
+	for _, fn := range append(c.P.PkgFuncs("nsqd"), c.P.PkgFuncs("internal/http_api")...) {
 		an.Instrs(fn, func(in ssa.Instruction) {
 			ci, ok := in.(ssa.CallInstruction)
 			if !ok {
 				return
 			}
-			for _, bad := range [][2]string{{"net/url", "(*URL).Query"}, {"net/http", "(*Request).FormValue"}, {"net/http", "(*Request).PostFormValue"}} {
+			for _, bad := range [][2]string{{"net/url", "(*URL).Query"}, {"net/http", "(*Request).FormValue"}, {"net/http", "(*Request).PostFormValue"},
+				{"net/http", "(*Request).ParseForm"}, {"net/http", "(*Request).ParseMultipartForm"}} {
 				if an.StdCallee(ci, bad[0], bad[1]) {
 					if why := lenientQueryOK[an.FnName(fn)]; why != "" {
 						c.OK(fn, "lenient query accessor allowed: "+bad[1], in.Pos(), why)
@@ -615,7 +616,7 @@ func c10query(c *an.Ctx) {
 					c.Bad(fn, "no lenient query accessor: "+bad[1], in.Pos(), bad[0]+"."+bad[1]+" silently drops malformed key/value pairs: a request with an unparsable query is answered 200 (and acts on the arguments that did parse) instead of 400", nil)
 				}
 			}
-			if an.StdCallee(ci, "net/url", "ParseQuery") {
+			if an.StdCallee(ci, "net/url", "ParseQuery") && fn.Pkg != nil && strings.HasSuffix(fn.Pkg.Pkg.Path(), "/nsqd") {
 				nparse++
 				call := in.(*ssa.Call)
 				_, fail := an.ErrEdgesPhi(an.ResultN(call, 1)[0])
